@@ -14,5 +14,6 @@ for d in ${SEEDROOT:-/tmp/seed}/C*-out/[12]; do
     */C07-out/2) EXTRA="C08";;
     */C05-out/2) EXTRA="C18";;
   esac
+  [ -f "$d/extra_checks" ] && EXTRA="$EXTRA $(cat $d/extra_checks)"
   ./seedtest.sh "$d" quick $EXTRA 2>&1 | grep -E "^(RESULT|check|demo|existing)"
 done
